@@ -282,7 +282,7 @@ func (v SolutionVehicle) bestMovePlanSingleStop(
 }
 
 func (v SolutionVehicle) bestMoveSequence(
-	_ context.Context,
+	ctx context.Context,
 	planUnit *solutionPlanStopsUnitImpl,
 	sequence SolutionStops,
 	preAllocatedMoveContainer *PreAllocatedMoveContainer,
@@ -308,7 +308,9 @@ func (v SolutionVehicle) bestMoveSequence(
 		sequence,
 		preAllocatedMoveContainer,
 		func() bool {
-			return stop
+			// The number of moves of a unit with several stops grows quickly
+			// with the length of the route, stop when the context is done.
+			return stop || ctx.Err() != nil
 		},
 	)
 
@@ -324,6 +326,9 @@ func (v SolutionVehicle) bestMovePlanMultipleStops(
 	quitSequenceGenerator := make(chan struct{})
 	defer close(quitSequenceGenerator)
 	for sequence := range SequenceGeneratorChannel(planUnit, quitSequenceGenerator) {
+		if ctx.Err() != nil {
+			break
+		}
 		newMove := v.bestMoveSequence(ctx, planUnit, sequence, preAllocatedMoveContainer)
 		bestMove = takeBestInPlace(bestMove, newMove)
 	}
